@@ -207,6 +207,29 @@ def judge(spec, acc, fam, via_load=False, nontrivial=None):
             acc.count("dump_refused")
             return
         buf = path
+        fidx = spec.get("file_index")
+        if fidx is not None:
+            # index columns exactly as a foreign writer could have left them (the setter refuses
+            # wrong lengths, so the file is the only way in)
+            import kastore
+            import numpy as np
+
+            with kastore.load(path) as store:
+                data = {k: np.array(v) for k, v in store.items()}
+            for key, col in zip(("indexes/edge_insertion_order", "indexes/edge_removal_order"), fidx):
+                data.pop(key, None)
+                if col is not None:
+                    data[key] = np.array(col, dtype=np.int32)
+            kastore.dump(data, path)
+            E = len(spec.get("edges", []))
+            if ver != V.VALID:
+                return
+            if fidx[0] is None or fidx[1] is None or len(fidx[0]) != E or len(fidx[1]) != E:
+                ver, reason = V.INVALID, "index columns in the file missing or not one entry per edge"
+            else:
+                ver, reason = V.verdict(dict(spec, index=(list(fidx[0]), list(fidx[1]))))
+            ts = None
+            acc.count("file_index_verdict_" + ver)
         lerr = None
         try:
             ts2 = tskit.load(buf)
@@ -423,6 +446,25 @@ def departures(spec):
         new = dict(spec)
         new["index"] = ([0] * (len(e) + 1), [0] * (len(e) + 1))
         yield "index-wrong-length", new
+    # index columns of a stored file (foreign writer): lengths around the number of edges, one column
+    # missing, columns of unequal length, surplus entries of every kind
+    E = len(e)
+    if E >= 1 and V.verdict(spec)[0] == V.VALID:
+        tc0, err0 = build_tc(spec)
+        if err0 is None:
+            tc0.build_index()
+            I0 = tc0.indexes.edge_insertion_order.tolist()
+            O0 = tc0.indexes.edge_removal_order.tolist()
+            variants = [(I0, O0), (I0[:-1], O0[:-1]), ([], []), (None, None), (I0, None), (None, O0),
+                        (I0 + [0], O0), (I0, O0 + [0]), (I0[:-1], O0), (O0, I0)]
+            for extra in (0, E - 1, E, -1, 2 ** 31 - 1):
+                variants.append((I0 + [extra], O0 + [extra]))
+                variants.append((I0 + [extra, extra], O0 + [extra, extra]))
+                variants.append(([extra] + I0, [extra] + O0))
+            for I, O in variants:
+                new = dict(spec)
+                new["file_index"] = (I, O)
+                yield "fileindex", new
 
 
 def bases():
